@@ -35,7 +35,7 @@ impl Prop for C08 {
         "fault_enumeration"
     }
     fn rule(&self) -> String {
-        "complete fault enumeration: suites x shapes x EVERY ordered (receiver, sender) pair x every fault kind x every field (both proof components, proof for every other identifier, proof of the other run, every commitment coefficient, length t-1 / t+1 with and without a valid proof, own-identifier filing in three forms, missing, surplus; round two: share+1, share for every other recipient, share of the other run, own / unknown identifier, missing, surplus, both maps consistently restricted). Oracle: the first consuming step is Err, earlier steps behave as in the honest run, culprits subset of {sender} and = {sender} for proof and share faults. Non-trivial = fault injected and consuming step executed".into()
+        "complete fault enumeration: suites x shapes x EVERY ordered (receiver, sender) pair x every fault kind x every field (both proof components, proof for every other identifier, proof of the other run, every commitment coefficient, length t-1 / t+1 with and without a valid proof, own-identifier filing in three forms, missing, surplus; round two: share+1, share for every other recipient, share of the other run, own / unknown identifier, missing, surplus, both maps consistently restricted, contributions filed under identifiers that differ from the sender only in high-order bits). Oracle: the first consuming step is Err, earlier steps behave as in the honest run, culprits subset of {sender} and = {sender} for proof and share faults. Non-trivial = fault injected and consuming step executed".into()
     }
     fn assumptions(&self) -> Vec<String> {
         vec!["'attributable' is read as: the error carries a culprit; count / length / identifier-set faults need only be errors naming nobody else (DESIGN 3.8 rule 4)".into()]
